@@ -99,7 +99,25 @@ def scenario(draw, tier="quick"):
             rc["trd"] = trd
         steps.append({"dt": draw(st.sampled_from([50, 200, 1000])), "k": "book", "rc": [rc]})
     spec["steps"] = steps
-    return {"markets": [spec], "strategies": strategies, "clients": [{"min_bet_validation": False}],
+    ri = 0
+    if draw(st.integers(0, 4)) == 0:
+        # handicap market: the same selection id on two lines; the orders are on the line listed SECOND, the first
+        # line carries a different book (other queue sizes at the same prices) and no traded volume
+        ri = 1
+        spec["market_type"] = "ASIAN_HANDICAP"
+        spec["number_of_winners"] = 0
+        spec["runners"] = [{"id": 1001, "hc": -1.5, "af": None}, {"id": 1001, "hc": 1.5, "af": None}]
+        for st_ in steps:
+            for rc_ in st_.get("rc", ()):
+                rc_["r"] = 1
+        for s_ in strategies:
+            for e_ in s_["script"]:
+                for op_ in e_["ops"]:
+                    op_["r"] = 1
+        first_book = next(st_ for st_ in steps if st_.get("k") == "book" and st_.get("rc") and "atb" in st_["rc"][0])
+        first_book["rc"].insert(0, {"r": 0, "atb": [[t, 777.0] for t, _ in atb[:2]] or [[max(0, mid - 1), 777.0]],
+                                    "atl": [[mid + 1 + i, 0.01] for i in range(2)]})
+    return {"markets": [spec], "strategies": strategies, "clients": [{"min_bet_validation": False}], "_ri": ri,
             "listener_kwargs": {"inplay": True} if inplay_only else {},
             "config": {"simulated_strategy_isolation": draw(st.integers(0, 2)) > 0, "simulation_available_prices": False}}
 
@@ -113,7 +131,8 @@ def check(sc):
     if lb.error is not None:
         raise crash_violation(lb.error, sc, "run-aborted")
     ups = lb.renderers[0].updates
-    if any(u.status != "OPEN" and any(u.traded_delta[0].values()) for u in ups):
+    ri = sc.get("_ri", 0)  # index of the runner the orders are on
+    if any(u.status != "OPEN" and any(u.traded_delta[ri].values()) for u in ups):
         # outside the generator's domain (reachable only by minimisation dropping the re-opening step): the
         # exchange does not report trades on a suspended market
         return False, {"not-judged:trades-while-suspended"}
@@ -133,6 +152,8 @@ def check(sc):
     classes = {"isolation-on" if iso else "isolation-off", "strategies:%d" % len(sc["strategies"])}
     if sc.get("listener_kwargs"):
         classes.add("inplay-only-listener")
+    if ri:
+        classes.add("handicap-line-listed-second")
     if any(u.status == "SUSPENDED" and u.idx > 1 for u in ups) and not sc.get("listener_kwargs"):
         classes.add("suspension-with-resting-orders")
     orders = []
@@ -147,7 +168,7 @@ def check(sc):
         # arrival (crossing) fragments are stamped with the previous update's time
         arrival = [m for m in o["matched"] if m[0] == ups[ack - 1].pt]
         arrival_sz = round(sum(m[2] for m in arrival), 2)
-        qside = ups[ack - 1].books[0]["atl" if o["side"] == "BACK" else "atb"]
+        qside = ups[ack - 1].books[ri]["atl" if o["side"] == "BACK" else "atb"]
         q0 = 0.0 if arrival else dict(qside).get(o["price"], 0.0)
         orders.append(dict(oid=oid, ack=ack, side=o["side"], limit=o["price"], size=o["size"], q0=q0,
                            arrival=arrival_sz, strategy=o["strategy"], h=h, us=us))
@@ -162,7 +183,7 @@ def check(sc):
         prev_passive = 0.0
         od["fill_at"] = {}
         for u in range(od["ack"], len(ups)):
-            delta = ups[u].traded_delta[0]
+            delta = ups[u].traded_delta[ri]
             el = {p: v for p, v in delta.items() if eligible(od["side"], od["limit"], p)}
             E += sum(Fraction(str(v)) for v in el.values()) / 2
             chunks += len(el)
@@ -216,7 +237,7 @@ def check(sc):
             filled = [od for od in live if od["fill_at"][u] > 0]
             if not live:
                 continue
-            delta = ups[u].traded_delta[0]
+            delta = ups[u].traded_delta[ri]
             demand = sum(min(od["size"], 1e9) for od in live)
             supply = sum(delta.values()) / 2
             if len(live) >= 2 and supply > 0 and demand > supply:
